@@ -471,6 +471,85 @@ func checkThreadingSyntactic(p *Prog, c *Check, fn *ssa.Function) {
 	}
 	memo := map[ssa.Value]threadSet{}
 	var failWhy string
+	// sum style: a width accumulator S that starts at 0 and grows by the result of each emission made at
+	// offset i_entry + S (n += x.fill(b, i+n)); threadSum(v) = the emissions summed into v
+	memoS := map[ssa.Value]threadSet{}
+	var threadSum func(v ssa.Value, depth int) (threadSet, bool)
+	threadSum = func(v ssa.Value, depth int) (threadSet, bool) {
+		if ts, ok := memoS[v]; ok {
+			return ts, ts != nil
+		}
+		if depth > 200 {
+			return nil, false
+		}
+		memoS[v] = nil
+		var out threadSet
+		switch x := v.(type) {
+		case *ssa.Const:
+			if k, ok := constInt(x); ok && k == 0 {
+				out = threadSet{}
+			}
+		case *ssa.BinOp:
+			if x.Op == token.ADD {
+				var u ssa.Value
+				var r *ssa.Call
+				if e, ok := isEm[x.Y]; ok {
+					u, r = x.X, e
+				} else if e, ok := isEm[x.X]; ok {
+					u, r = x.Y, e
+				}
+				if r != nil {
+					if ts, ok := threadSum(u, depth+1); ok {
+						// the emission must have been made at i_entry + u
+						var at ssa.Value
+						for _, e := range ems {
+							if e.call == r {
+								at = e.offset
+							}
+						}
+						atOK := false
+						if bo, isB := at.(*ssa.BinOp); isB && bo.Op == token.ADD {
+							atOK = bo.X == ssa.Value(off) && bo.Y == u || bo.Y == ssa.Value(off) && bo.X == u
+						}
+						if k, isC := constInt(u); isC && k == 0 && at == ssa.Value(off) {
+							atOK = true
+						}
+						if atOK && !ts[r] {
+							out = threadSet{}
+							for k := range ts {
+								out[k] = true
+							}
+							out[r] = true
+						}
+					}
+				}
+			}
+		case *ssa.Phi:
+			out = threadSet{}
+			okAll := true
+			for _, e := range x.Edges {
+				if e == v {
+					continue
+				}
+				ts, ok := threadSum(e, depth+1)
+				if !ok {
+					if bo, isB := e.(*ssa.BinOp); isB && (bo.X == v || bo.Y == v) {
+						continue
+					}
+					okAll = false
+					break
+				}
+				for k := range ts {
+					out[k] = true
+				}
+			}
+			if !okAll {
+				out = nil
+			}
+		}
+		memoS[v] = out
+		return out, out != nil
+	}
 	var thread func(v ssa.Value, depth int) (threadSet, bool)
 	thread = func(v ssa.Value, depth int) (threadSet, bool) {
 		if ts, ok := memo[v]; ok {
@@ -494,6 +573,23 @@ func checkThreadingSyntactic(p *Prog, c *Check, fn *ssa.Function) {
 					u, r = x.X, e
 				} else if e, ok := isEm[x.X]; ok {
 					u, r = x.Y, e
+				}
+				if r == nil {
+					// i_entry + S with S a width accumulator
+					var sv ssa.Value
+					if x.X == ssa.Value(off) {
+						sv = x.Y
+					} else if x.Y == ssa.Value(off) {
+						sv = x.X
+					}
+					if sv != nil {
+						if ts, ok := threadSum(sv, depth+1); ok {
+							out = threadSet{}
+							for k := range ts {
+								out[k] = true
+							}
+						}
+					}
 				}
 				if r != nil {
 					if ts, ok := thread(u, depth+1); ok {
@@ -607,6 +703,11 @@ func checkThreadingSyntactic(p *Prog, c *Check, fn *ssa.Function) {
 			}
 		}
 		ts, ok := thread(inner, 0)
+		if !ok {
+			if ts2, ok2 := threadSum(rv, 0); ok2 {
+				ts, ok, rel = ts2, true, true
+			}
+		}
 		if !ok && writesBufferDirectly(fn, buf) {
 			if okx, how := extentRule(p, pr, fn, buf, off, ems, ret); okx {
 				c.OK("R10.2", rcs, posOf(p, ret), how)
@@ -1585,13 +1686,18 @@ func checkWriteToDelegated(p *Prog, c *Check, fn *ssa.Function, w *ssa.Parameter
 		return nil, "", nil
 	}
 	dry, M, dargs := onFiller(buf.Len)
-	if dry == nil || len(dargs) < 2 || !p.isNilSliceLoad(dargs[0]) {
+	widthName := "" // the buffer may be sized through x.width(), an accessor that is the dry run of the fill method
+	switch {
+	case dry != nil && len(dargs) == 0:
+		widthName, M = M, ""
+	case dry == nil || len(dargs) < 2 || !p.isNilSliceLoad(dargs[0]):
 		c.Bad("R10.1", cons, posOf(p, buf), "the buffer in "+qname(H)+" is not sized by a dry run x.fill(nil-slice, 0) of the value handed in: "+describeVal(buf.Len))
 		return nil, true
-	}
-	if k, isC := constInt(dargs[1]); !isC || k != 0 {
-		c.Bad("R10.1", cons, posOf(p, buf), "the dry run does not start at offset 0")
-		return nil, true
+	default:
+		if k, isC := constInt(dargs[1]); !isC || k != 0 {
+			c.Bad("R10.1", cons, posOf(p, buf), "the dry run does not start at offset 0")
+			return nil, true
+		}
 	}
 	var real *ssa.Call
 	for _, r := range *buf.Referrers() {
@@ -1599,6 +1705,9 @@ func checkWriteToDelegated(p *Prog, c *Check, fn *ssa.Function, w *ssa.Parameter
 			continue
 		}
 		rc, m2, rargs := onFiller(valueOf(r))
+		if M == "" && rc != nil {
+			M = m2
+		}
 		if rc == nil || m2 != M || real != nil || len(rargs) < 2 || rargs[0] != ssa.Value(buf) {
 			c.Bad("R10.1", cons, posOf(p, r), "the frame buffer is used by something other than one "+M+"(buffer, 0) on the same value and the Write: "+r.String())
 			return nil, true
@@ -1641,6 +1750,29 @@ func checkWriteToDelegated(p *Prog, c *Check, fn *ssa.Function, w *ssa.Parameter
 	if f == nil {
 		c.Unk("R10.1", cons, pos, "cannot resolve the method "+M+" of the receiver type")
 		return nil, true
+	}
+	if widthName != "" {
+		// T.width() must be the dry run of T.M on the same receiver
+		okW := false
+		var tn string
+		if pt, ok := fn.Params[0].Type().Underlying().(*types.Pointer); ok {
+			if nt := namedOf(pt.Elem()); nt != nil {
+				tn = nt.Obj().Name()
+			}
+		} else if nt := namedOf(fn.Params[0].Type()); nt != nil {
+			tn = nt.Obj().Name()
+		}
+		if w := p.Method(tn, widthName); w != nil && len(w.Blocks) == 1 {
+			if wr, ok := terminator(w.Blocks[0]).(*ssa.Return); ok && len(wr.Results) == 1 {
+				if g, recv, ok := p.dryRunCall(wr.Results[0], 0); ok && g == f && recv == ssa.Value(w.Params[0]) {
+					okW = true
+				}
+			}
+		}
+		if !okW {
+			c.Bad("R10.1", cons, pos, "the buffer in "+qname(H)+" is sized by "+widthName+"(), which is not the dry run of "+qname(f)+" on the same receiver")
+			return nil, true
+		}
 	}
 	c.OK("R10.1", cons, pos, "delegates to "+qname(H)+": buffer = make(dry run of the receiver's "+M+"); filled once by the same method on the same value from offset 0; one Write of that buffer on every path; results forwarded")
 	return f, true
